@@ -179,8 +179,21 @@ def case_history(case):
             kw = request(name)
             # the model key is the request's name: every variant differs from R0 in exactly one argument
             verdict = model.request(name, footprint=kw["footprint"])
-            if pattern == "new-object" or (pattern == "two-process" and k == 1):
+            if pattern == "new-object" or (pattern in ("two-process", "fresh-interpreter") and k == 1):
                 cache = GreensFunctionCache(cdir)
+            if pattern == "fresh-interpreter" and k == 0:
+                # an EARLIER session: a separately started interpreter (own hash randomisation, own pid, nothing inherited)
+                import subprocess
+                import sys as _sys
+
+                code = ("import sys, logging; logging.disable(logging.CRITICAL); sys.path.insert(0, %r); sys.path.insert(1, %r)\n"
+                        "from vf.checks import c15\nfrom vf import solverlib as sl\nfrom bldfm.cache import GreensFunctionCache\n"
+                        "sl.solver()(cache=GreensFunctionCache(%r), **c15.request(%r))\nimport os; os._exit(0)\n") % (core.SRC, core.VERIF, cdir, name)
+                env = dict(os.environ, PYTHONHASHSEED="random")
+                r_ = subprocess.run([_sys.executable, "-c", code], capture_output=True, text=True, env=env, timeout=600)
+                if r_.returncode != 0:
+                    raise core.HarnessError("the earlier session failed: " + r_.stderr[-800:])
+                continue
             if pattern == "two-process" and k == 0:
                 pid = os.fork()
                 if pid == 0:
@@ -433,6 +446,14 @@ def case_concurrent_writers(case):
 
     def make_workers(wd):
         cdir = os.path.join(wd, ".bldfm_cache")
+        if case.get("predamaged"):
+            # an interrupted earlier run left a truncated entry for this request
+            S(cache=GreensFunctionCache(cdir), **request(case["predamaged"]))
+            for fn_ in os.listdir(cdir):
+                pth = os.path.join(cdir, fn_)
+                data_ = open(pth, "rb").read()
+                with open(pth, "wb") as fh_:
+                    fh_.write(data_[: len(data_) // 2])
 
         def mk(n_):
             def run():
@@ -497,10 +518,14 @@ def run(ctx):
             dmg.append({"hist": [a_, b_, "!%s:%s" % (how, a_), a_, b_, a_, b_], "pattern": "one-object"})
             dmg.append({"hist": [b_, a_, "!%s:%s" % (how, a_), b_, a_, b_, a_], "pattern": "one-object"})
             dmg.append({"hist": [a_, "!%s:%s" % (how, a_), b_, a_, b_, a_], "pattern": "new-object" if how == "z" else "one-object"})
+    # "in this or an earlier process": the first request of a pair is made by a separately started interpreter
+    fresh = [{"hist": [n_, n_], "pattern": "fresh-interpreter"} for n_ in NAMES if n_ != "dispersion"][:: (3 if ctx.tier == "quick" else 1)] + [{"hist": ["R0", "measx"], "pattern": "fresh-interpreter"}]
+    cases = cases + fresh
     res = ctx.run_cases(case_history, cases, sub="histories")
     res += ctx.run_cases(case_history, dmg, sub="histories with entries damaged on disk")
     cases = cases + dmg
     cw = [{"requests": list(p_), "bound": 2} for p_ in (("R0", "measx"), ("measx", "measy"), ("R0", "srcshape"), ("levels-order", "levels-subset"), ("R0", "R0"), ("single-row", "R0"))]
+    cw += [{"requests": ["R0", "R0"], "bound": 2, "predamaged": "R0"}, {"requests": ["R0", "measx"], "bound": 2, "predamaged": "R0"}]
     if ctx.tier != "quick":
         cw += [{"requests": ["R0", "measx", "measy"], "bound": 2, "cap": 60000}, {"requests": ["R0", "halo30"], "bound": 3, "cap": 60000}]
     rcw = core.run_forked(ctx, case_concurrent_writers, cw, sub="concurrent writers on one cache directory (all interleavings, preemption-bounded)", nproc=8, timeout=1800)
